@@ -408,6 +408,7 @@ def main():
         with open(dest) as fh:
             old = fh.read()
     if old != text:
+        os.makedirs(os.path.dirname(os.path.abspath(dest)), exist_ok=True)
         with open(dest, "w") as fh:
             fh.write(text)
         print("py2coq: wrote %s" % dest)
